@@ -280,12 +280,14 @@ def run_cli(argv, world_json=None, trace=None, plan=None, cwd=None,
 
 # ------------------------------------------------------------ output parser
 
+# (the colourised formatter writes "errors, N skipped")
 RAN_RE = re.compile(
-    r'^  Ran (\d+) tests with (\d+) failures, (\d+) errors and (\d+) skipped'
-    r' in (?:\d+ minutes )?[\d.]+ seconds\.$', re.M)
+    r'^  Ran (\d+) tests with (\d+) failures, (\d+) errors(?: and|,) (\d+) '
+    r'skipped in (?:\d+ minutes )?[\d.]+ seconds\.$', re.M)
 TOTAL_RE = re.compile(
-    r'^Total: (\d+) tests, (\d+) failures, (\d+) errors and (\d+) skipped'
-    r' in (?:\d+ minutes )?[\d.]+ seconds\.$', re.M)
+    r'^Total: (\d+) tests, (\d+) failures, (\d+) errors(?: and|,) (\d+) '
+    r'skipped in (?:\d+ minutes )?[\d.]+ seconds\.$', re.M)
+ANSI_RE = re.compile(r'\x1b\[[0-9;]*m')
 HEADER_RE = re.compile(r'^Running (\S+) tests:$', re.M)
 
 
@@ -293,7 +295,11 @@ def parse_output(text):
     """Split runner output into per-layer blocks and the trailer."""
     info = {'layers': [], 'total': None, 'errors_list': None,
             'failures_list': None, 'seed': None}
-    lines = text.split('\n')
+    # --color wraps the text in SGR sequences, --progress rewrites the
+    # current line with carriage returns
+    text = ANSI_RE.sub('', text)
+    lines = [ln.rsplit('\r', 1)[-1] if '\r' in ln.rstrip('\r') else ln
+             for ln in text.split('\n')]
     cur = None
     i = 0
     while i < len(lines):
